@@ -3,6 +3,7 @@ package dagsync
 import (
 	"bytes"
 	"context"
+	"crypto/rand"
 	"io"
 	"net/http"
 	"strings"
@@ -16,6 +17,8 @@ import (
 	basicnode "github.com/ipld/go-ipld-prime/node/basic"
 	"github.com/ipld/go-ipld-prime/traversal/selector/builder"
 	"github.com/ipni/go-libipni/dagsync/ipnisync"
+	headschema "github.com/ipni/go-libipni/dagsync/ipnisync/head"
+	"github.com/libp2p/go-libp2p/core/crypto"
 	"github.com/libp2p/go-libp2p/core/peer"
 	"github.com/multiformats/go-multiaddr"
 	"github.com/multiformats/go-multihash"
@@ -48,6 +51,182 @@ type fsRT struct {
 }
 
 func (r *fsRT) RoundTrip(req *http.Request) (*http.Response, error) { return r.fn(req) }
+
+// fsWorld is the whole-stack world: a publisher store with a real dag-cbor
+// chain, the subscriber's store, a harness HTTP network and a hand-built
+// Subscriber whose sync clients are created by the real NewSyncer.
+type fsWorld struct {
+	chain       []cid.Cid
+	pub, st     *fsStore
+	v           *vSub
+	pinfo       peer.AddrInfo
+	requested   map[int]int
+	headQueries int
+	// respond, if set, may replace the publisher's answer to the k-th request for block i
+	respond func(i, k int) (*http.Response, error)
+	restore func()
+}
+
+func fsKey(c cid.Cid) string { return cidlink.Link{Cid: c}.Binary() }
+
+func fsResp(status int, body []byte) *http.Response {
+	return &http.Response{StatusCode: status, Body: io.NopCloser(bytes.NewReader(body)), Header: http.Header{}}
+}
+
+func newFullStack(n, localMask int, segLimit int64, mhLen int) *fsWorld {
+	multicodec.RegisterEncoder(cid.DagCBOR, dagcbor.Encode)
+	multicodec.RegisterDecoder(cid.DagCBOR, dagcbor.Decode)
+	lp := cidlink.LinkPrototype{Prefix: cid.Prefix{Version: 1, Codec: cid.DagCBOR, MhType: multihash.SHA2_256, MhLength: mhLen}}
+	w := &fsWorld{pub: &fsStore{m: map[string][]byte{}}, st: &fsStore{m: map[string][]byte{}}, requested: map[int]int{}}
+	publs := fsLsys(w.pub)
+	w.chain = make([]cid.Cid, n)
+	var prev ipld.Link
+	for i := n - 1; i >= 0; i-- {
+		p := prev
+		nd := fluent.MustBuildMap(basicnode.Prototype.Map, 2, func(na fluent.MapAssembler) {
+			na.AssembleEntry("ContextID").AssignString(string(rune('a' + i)))
+			if p != nil {
+				na.AssembleEntry("PreviousID").AssignLink(p)
+			}
+		})
+		l, err := publs.Store(ipld.LinkContext{}, lp, nd)
+		verif_Assume(err == nil)
+		w.chain[i] = l.(cidlink.Link).Cid
+		prev = l
+	}
+	for i := 0; i < n; i++ {
+		if localMask&(1<<i) != 0 {
+			w.st.m[fsKey(w.chain[i])] = w.pub.m[fsKey(w.chain[i])]
+		}
+	}
+	// the publisher's identity and its signed head for the newest advertisement
+	priv, pubk, kerr := crypto.GenerateEd25519Key(rand.Reader)
+	verif_Assume(kerr == nil)
+	pubID, kerr := peer.IDFromPublicKey(pubk)
+	verif_Assume(kerr == nil)
+	sh, herr := headschema.NewSignedHead(w.chain[0], "", priv)
+	verif_Assume(herr == nil)
+	headWire, herr := sh.Encode()
+	verif_Assume(herr == nil)
+	oldRT := http.DefaultTransport
+	http.DefaultTransport = &fsRT{fn: func(req *http.Request) (*http.Response, error) {
+		if strings.HasSuffix(req.URL.Path, "/head") {
+			w.headQueries++
+			return fsResp(200, headWire), nil
+		}
+		for i, c := range w.chain {
+			if strings.HasSuffix(req.URL.Path, "/"+c.String()) {
+				w.requested[i]++
+				if w.respond != nil {
+					if r, err := w.respond(i, w.requested[i]); r != nil || err != nil {
+						return r, err
+					}
+				}
+				return fsResp(200, w.pub.m[fsKey(c)]), nil
+			}
+		}
+		return fsResp(404, nil), nil
+	}}
+	w.restore = func() { http.DefaultTransport = oldRT }
+	w.v = newVSub(w.chain, -1, 0, segLimit, true)
+	w.v.peer = peer.AddrInfo{ID: pubID}
+	ssb := builder.NewSelectorSpecBuilder(basicnode.Prototype.Any)
+	w.v.s.adsSelectorSeq = ssb.ExploreFields(func(efsb builder.ExploreFieldsSpecBuilder) {
+		efsb.Insert("PreviousID", ssb.ExploreRecursiveEdge())
+	}).Node()
+	w.v.s.ipniSync = ipnisync.NewSync(fsLsys(w.st), w.v.dispatch)
+	hnd := w.v.s.getOrCreateHandler(w.v.peer.ID)
+	hnd.syncer = nil // the real sync client is created by makeSyncer
+	addr, err := multiaddr.NewMultiaddr("/ip4/127.0.0.1/tcp/80/http")
+	verif_Assume(err == nil)
+	w.pinfo = peer.AddrInfo{ID: w.v.peer.ID, Addrs: []multiaddr.Multiaddr{addr}}
+	return w
+}
+
+// C02 + C04, whole stack: one request of a sync is answered wrongly (error
+// status, transport error, another valid block of the same chain, a truncated
+// body, the genuine body with one altered byte, appended bytes). The sync fails,
+// nothing that does not hash to its CID is stored or reported, the
+// latest-synced value is unchanged and no notification is emitted; once the
+// publisher answers correctly the same sync succeeds and ends in the state of a
+// fault-free run. Hash collisions on the inputs of the run are excluded (cfg).
+func VerifC04_FullStackFault() {
+	const n = 3
+	seg := verif_Choose("segDepthLimit", 0, 2)
+	segLimit := int64(-1)
+	if seg > 0 {
+		segLimit = int64(seg)
+	}
+	// full-length digests: "no collisions" is assumed for SHA-256, not for its truncations
+	w := newFullStack(n, 0, segLimit, 32)
+	defer w.restore()
+	faultAt := verif_Choose("faultyBlock", 0, n-1)
+	kind := verif_Choose("faultKind", 0, 6)
+	genuine := w.pub.m[fsKey(w.chain[faultAt])]
+	faulty := true // the publisher misbehaves for this block during the whole first sync (retries and fallback paths included)
+	w.respond = func(i, k int) (*http.Response, error) {
+		if i != faultAt || !faulty {
+			return nil, nil
+		}
+		switch kind {
+		case 0:
+			return fsResp(500, nil), nil
+		case 1:
+			return fsResp(404, nil), nil
+		case 2:
+			return nil, context.DeadlineExceeded
+		case 3: // another valid block of the same chain
+			return fsResp(200, w.pub.m[fsKey(w.chain[(faultAt+1)%n])]), nil
+		case 4: // truncated
+			return fsResp(200, genuine[:len(genuine)-1-verif_Choose("cutBytes", 0, 2)]), nil
+		case 5: // one altered byte
+			b := append([]byte{}, genuine...)
+			x := verif_U8("xorMask")
+			verif_Assume(x != 0)
+			b[verif_Choose("alteredByte", 0, len(b)-1)] ^= x
+			return fsResp(200, b), nil
+		default: // appended bytes
+			return fsResp(200, append(append([]byte{}, genuine...), verif_U8("appended"))), nil
+		}
+	}
+	evBefore := len(w.v.drain())
+	got, err := w.v.s.SyncAdChain(context.Background(), w.pinfo)
+	_ = got
+	verif_Reach("faulted sync returned")
+	verif_Assert(err != nil, "a sync in which a block cannot be fetched intact fails")
+	verif_Assert(w.v.latest() == cid.Undef, "a failed sync leaves the latest-synced value unchanged")
+	verif_Assert(len(w.v.drain()) == evBefore, "a failed explicit sync emits no notification")
+	for i, c := range w.chain {
+		if b, ok := w.st.m[fsKey(c)]; ok {
+			verif_Assert(bytes.Equal(b, w.pub.m[fsKey(c)]), "every block in the local store is the block that hashes to its CID")
+			verif_Assert(i < faultAt, "nothing at or beyond the faulty block was stored")
+		}
+	}
+	for _, c := range w.v.log {
+		verif_Assert(c != w.chain[faultAt], "the block that failed verification is never reported to the hook")
+	}
+	// the publisher answers correctly from now on
+	faulty = false
+	firstSyncRequests := w.requested[faultAt]
+	w.v.log, w.v.hooks = nil, 0
+	got2, err2 := w.v.s.SyncAdChain(context.Background(), w.pinfo)
+	verif_Reach("retried")
+	verif_Assert(err2 == nil && got2 == w.chain[0], "once the publisher answers correctly the same sync succeeds")
+	verif_Assert(w.v.latest() == w.chain[0], "and leaves the latest-synced value of a fault-free run")
+	for _, c := range w.chain {
+		b, ok := w.st.m[fsKey(c)]
+		verif_Assert(ok && bytes.Equal(b, w.pub.m[fsKey(c)]), "and the same stored blocks as a fault-free run")
+	}
+	for i := 0; i < n; i++ {
+		want := 1
+		if i == faultAt {
+			want = firstSyncRequests + 1
+		}
+		verif_Assert(w.requested[i] <= want, "blocks verified before the fault are not fetched again")
+	}
+	evs := w.v.drain()
+	verif_Assert(len(evs) == 1 && evs[0].Err == nil && evs[0].Cid == w.chain[0], "the retried sync emits the one success notification")
+}
 
 // C01, whole stack: the REAL Subscriber.SyncAdChain (segmented loop, selector
 // construction, hook wrapping, notification, latest-sync bookkeeping) over the
@@ -85,7 +264,7 @@ func VerifC01_FullStack() {
 
 	local := verif_Choose("localMask", 0, 1<<n-1)
 	depth := verif_Choose("depthLimit", 0, n)  // per-call depth limit; 0 = none
-	stopKind := verif_Choose("stop", 0, 2)      // 0 none, 1 latest-synced = oldest block, 2 explicit stop = oldest block
+	stopKind := verif_Choose("stop", 0, 2)     // 0 none, 1 latest-synced = oldest block, 2 explicit stop = oldest block
 	seg := verif_Choose("segDepthLimit", 0, 2) // 0 = no segmentation
 	start := verif_Choose("start", 0, 1)
 	if local == 1<<n-1 {
